@@ -23,7 +23,7 @@ from puresnmp.adt import (
 )
 from puresnmp.credentials import V3, Credentials
 from puresnmp.exc import SnmpError
-from puresnmp.pdu import GetRequest, PDUContent
+from puresnmp.pdu import GetRequest, PDUContent, Report
 from puresnmp.plugins.security import SecurityModel
 from puresnmp.transport import MESSAGE_MAX_SIZE
 from puresnmp.util import get_request_id, localise_key, validate_response_id
@@ -445,6 +445,23 @@ class UserSecurityModel(
         verify_authentication(message, credentials, security_params)
         message = decrypt_message(message, credentials)
         validate_usm_message(message)
+
+        # Anything but a report must arrive with the security level of the
+        # credentials. Otherwise a message with cleared auth/priv flags would
+        # bypass authentication (and decryption) altogether. Reports may
+        # legitimately come in on a lower level, but they are never data.
+        flags = message.header.flags
+        if isinstance(message.scoped_pdu.data, Report):
+            raise SnmpError(
+                f"Unexpected report from remote device: {message.scoped_pdu.data}"
+            )
+        if (credentials.auth is not None and not flags.auth) or (
+            credentials.priv is not None and not flags.priv
+        ):
+            raise UnsupportedSecurityLevel(
+                "The security level of the incoming message is lower than "
+                "the level defined by the credentials!"
+            )
         return message
 
     async def send_discovery_message(
